@@ -99,8 +99,11 @@ Qed.
 (* ------------------------------------------------------------------ *)
 (** * The unsafe block of HVec::push *)
 
+(** capacity: unallocated, or a power of two of at least INITIAL_ALLOCATION *)
+Definition cap_ok (cap : Z) : Prop := cap = 0 \/ exists j, 0 <= j /\ cap = 2 ^ j /\ INITIAL_ALLOCATION <= cap.
+
 Definition hv_wf (h : hvec) : Prop :=
-  0 <= hv_base h /\ hv_base h mod 8 = 0 /\ 0 <= hv_len h <= hv_cap h /\ hv_len h mod 8 = 0.
+  0 <= hv_base h /\ hv_base h mod 8 = 0 /\ 0 <= hv_len h <= hv_cap h /\ hv_len h mod 8 = 0 /\ cap_ok (hv_cap h).
 
 (** what a successful [hv_write] did *)
 Lemma hv_write_ok h vt cs h' : hv_wf h -> vt_wf vt cs -> hv_write h vt cs = Ok h' ->
@@ -113,7 +116,7 @@ Lemma hv_write_ok h vt cs h' : hv_wf h -> vt_wf vt cs -> hv_write h vt cs = Ok h
   (* the accesses were in bounds and aligned *)
   flat_access_ok h p 8 8 = true /\ flat_access_ok h (data_addr p vt) (vt_size vt) (vt_align vt) = true.
 Proof.
-  intros (Hb0 & Hb8 & Hlen & Hl8) Hwf. pose proof Hwf as ((k & Hk & Ha) & Hs & Hcs).
+  intros (Hb0 & Hb8 & Hlen & Hl8 & Hcapok) Hwf. pose proof Hwf as ((k & Hk & Ha) & Hs & Hcs).
   unfold hv_write.
   set (p := hv_base h + hv_len h).
   destruct (p mod 8 =? 0) eqn:Ep8; cbn [negb]; [|discriminate]. apply Z.eqb_eq in Ep8.
@@ -133,7 +136,7 @@ Proof.
   intros H. injection H as <-. cbn [hv_base hv_len hv_cap hv_mem].
   apply Z.leb_le in E5. rewrite Z.gtb_ltb in E6. apply Z.ltb_ge in E6.
   split; [reflexivity|]. split; [reflexivity|]. split; [lia|].
-  split. { unfold hv_wf; cbn [hv_base hv_len hv_cap hv_mem]. repeat split; try lia. }
+  split. { unfold hv_wf; cbn [hv_base hv_len hv_cap hv_mem]. repeat split; try lia; assumption. }
   split.
   { cbn [repr]. split; [assumption|]. split; [assumption|]. split; [|split; [|split; [assumption|reflexivity]]].
     - (* VP word survives the data write *)
@@ -164,7 +167,7 @@ Lemma hv_write_total h vt cs : hv_wf h -> vt_wf vt cs ->
   hv_base h + hv_cap h < W64 ->
   exists h', hv_write h vt cs = Ok h'.
 Proof.
-  intros (Hb0 & Hb8 & Hlen & Hl8) Hwf Hreq Hsp. pose proof Hwf as ((k & Hk & Ha) & Hs & Hcs).
+  intros (Hb0 & Hb8 & Hlen & Hl8 & Hcapok) Hwf Hreq Hsp. pose proof Hwf as ((k & Hk & Ha) & Hs & Hcs).
   set (p := hv_base h + hv_len h).
   assert (Ep8 : p mod 8 = 0). { subst p. rewrite Zplus_mod, Hb8, Hl8. reflexivity. }
   pose proof (item_geometry p vt cs Hwf) as (G1 & G2 & G3 & G4).
@@ -371,10 +374,10 @@ Qed.
 Lemma drain_spec chain : forall h ents, chain_inv chain h ents -> drain_hv chain h = Ok ents.
 Proof.
   induction chain as [|old rest IH]; intros h ents; cbn [chain_inv drain_hv].
-  - intros ((Hb0 & Hb8 & Hlen & Hl8) & Hr & _).
+  - intros ((Hb0 & Hb8 & Hlen & Hl8 & Hcapok) & Hr & _).
     apply walk_users; [exact Hr|lia|lia|lia|].
     apply repr_le in Hr. rewrite map_length in Hr. lia.
-  - intros ((Hb0 & Hb8 & Hlen & Hl8) & olds & us & -> & Hc & Hn & Hr & _).
+  - intros ((Hb0 & Hb8 & Hlen & Hl8 & Hcapok) & olds & us & -> & Hc & Hn & Hr & _).
     apply walk_chain with (old := old); [exact Hr|lia|lia| |].
     + apply repr_le in Hr. cbn [length] in Hr. rewrite map_length in Hr. lia.
     + rewrite !Z.eqb_refl. cbn [andb]. apply IH. exact Hc.
@@ -383,7 +386,7 @@ Qed.
 Lemma fq_inv_new : fq_inv fq_new [].
 Proof.
   unfold fq_inv, fq_new, hv_new. cbn [fq_chain fq_cur chain_inv hv_base hv_len hv_cap hv_mem map repr].
-  unfold hv_wf. cbn [hv_base hv_len hv_cap]. repeat split; try lia; auto.
+  unfold hv_wf, cap_ok. cbn [hv_base hv_len hv_cap]. repeat split; try lia; auto.
 Qed.
 
 (** appending a closure to the current buffer *)
@@ -418,16 +421,18 @@ Qed.
 Lemma expand_spec q ents req nb q1 : fq_inv q ents -> base_ok nb -> 0 <= req ->
   expand_storage q req nb = Ok q1 ->
   fq_inv q1 ents /\ hv_len (fq_cur q1) + req <= hv_cap (fq_cur q1) /\ hv_base (fq_cur q1) = nb /\
-  (exists j, 10 <= j /\ hv_cap (fq_cur q1) = 2 ^ j) /\ hv_cap (fq_cur q) < hv_cap (fq_cur q1) /\
-  hv_cap (fq_cur q1) <= Z.max 1024 (2 * Z.max (hv_cap (fq_cur q)) (req + 32)).
+  (exists j, 0 <= j /\ hv_cap (fq_cur q1) = 2 ^ j) /\ INITIAL_ALLOCATION <= hv_cap (fq_cur q1) /\
+  hv_cap (fq_cur q) < hv_cap (fq_cur q1) /\
+  hv_cap (fq_cur q1) <= Z.max (2 * INITIAL_ALLOCATION) (2 * Z.max (hv_cap (fq_cur q)) (req + 32)).
 Proof.
   intros Hinv (Hnb0 & Hnb8) Hreq. unfold expand_storage.
-  pose proof (chain_inv_wf _ _ _ Hinv) as (Hb0 & Hb8 & Hlen & Hl8).
+  pose proof (chain_inv_wf _ _ _ Hinv) as (Hb0 & Hb8 & Hlen & Hl8 & Hcapok).
   destruct (hv_len (fq_cur q) =? 0) eqn:E0; cbn [negb].
   - (* the old buffer is empty: it is dropped *)
     apply Z.eqb_eq in E0. cbn [olift rbind].
     destruct (expand_size _ _) as [size|] eqn:Es; cbn [olift rbind]; [|discriminate].
-    apply expand_size_some in Es; [|lia|lia]. destruct Es as (j & Hj & -> & Hc1 & Hc2 & Hc3 & _).
+    apply expand_size_some in Es; [|lia|lia]. destruct Es as (j & Hj & -> & Hia & Hc1 & Hc2 & Hc3 & _).
+    pose proof (pow2_pos j Hj) as Hjpos.
     destruct (hv_with_size _ _) as [new|] eqn:En; cbn [rbind]; [|discriminate].
     apply hv_with_size_ok in En. destruct En as [-> _]. cbn [fq_cur hv_cap hv_len hv_base].
     unfold csub. replace (0 <=? 2 ^ j) with true by (symmetry; apply Z.leb_le; lia). cbn [olift rbind].
@@ -436,13 +441,14 @@ Proof.
     assert (ents = []) as -> by (eapply chain_inv_empty; eassumption).
     split; [|split; [lia|split; [reflexivity|split; [eauto|lia]]]].
     unfold fq_inv. cbn [fq_cur fq_chain chain_inv map repr hv_base hv_len hv_mem].
-    unfold hv_wf. cbn [hv_base hv_len hv_cap]. repeat split; try lia; auto.
+    unfold hv_wf, cap_ok. cbn [hv_base hv_len hv_cap]. repeat split; try lia; auto. right. eauto.
   - (* the old buffer becomes the first item of the new one *)
     apply Z.eqb_neq in E0.
     unfold cadd64 at 1. destruct (req + CHAIN_ITEM_SIZE <? _) eqn:Eo; cbn [olift rbind]; [|discriminate].
     destruct (expand_size _ _) as [size|] eqn:Es; cbn [olift rbind]; [|discriminate].
     change CHAIN_ITEM_SIZE with 32 in *.
-    apply expand_size_some in Es; [|lia|lia]. destruct Es as (j & Hj & -> & Hc1 & Hc2 & Hc3 & _).
+    apply expand_size_some in Es; [|lia|lia]. destruct Es as (j & Hj & -> & Hia & Hc1 & Hc2 & Hc3 & _).
+    pose proof (pow2_pos j Hj) as Hjpos.
     destruct (hv_with_size _ _) as [new|] eqn:En; cbn [rbind]; [|discriminate].
     apply hv_with_size_ok in En. destruct En as [-> _].
     change (push_req CHAIN_PAYLOAD 8) with (push_req (CHAIN_ITEM_SIZE - 8) 8). rewrite chain_req.
@@ -452,7 +458,7 @@ Proof.
     set (new := {| hv_base := nb; hv_len := 0; hv_cap := 2 ^ j; hv_mem := mem_empty |}).
     destruct (hv_write new chain_vt (chain_cells (fq_cur q))) as [new'|] eqn:Ew; cbn [rbind]; [|discriminate].
     assert (Hwfn : hv_wf new).
-    { unfold hv_wf, new. cbn [hv_base hv_len hv_cap]. repeat split; try lia; auto. }
+    { unfold hv_wf, cap_ok, new. cbn [hv_base hv_len hv_cap]. repeat split; try lia; auto. right. eauto. }
     destruct (hv_write_ok _ _ _ _ Hwfn (enc_chain_wf _) Ew) as (Eb & Ecap & El & Hwf' & Hr1 & _ & _).
     cbn [fq_cur fq_chain]. unfold new in Eb, Ecap, El, Hr1. cbn [hv_base hv_len hv_cap] in Eb, Ecap, El, Hr1.
     rewrite Z.add_0_r in El, Hr1.
@@ -503,7 +509,7 @@ Proof.
   intros Hinv. unfold fq_execute. rewrite (drain_spec _ _ _ Hinv). cbn [rbind].
   eexists. split; [reflexivity|]. unfold hv_reset at 2 3 4. cbn [fq_cur hv_base hv_cap hv_len].
   split; [|auto].
-  pose proof (chain_inv_wf _ _ _ Hinv) as (Hb0 & Hb8 & Hlen & Hl8).
+  pose proof (chain_inv_wf _ _ _ Hinv) as (Hb0 & Hb8 & Hlen & Hl8 & Hcapok).
   unfold fq_inv. cbn [fq_cur fq_chain chain_inv hv_reset hv_base hv_len hv_mem map repr].
   unfold hv_wf, hv_reset. cbn [hv_base hv_len hv_cap]. repeat split; try lia; auto.
 Qed.
@@ -518,4 +524,17 @@ Proof.
   destruct ents as [|e ents].
   - apply Z.eqb_eq. apply H. reflexivity.
   - apply Z.eqb_neq. intros E. apply H in E. discriminate.
+Qed.
+
+(** the monitor [geom_ok] holds of every represented queue: what verif_geometry() may report *)
+Lemma geom_ok_spec q ents : fq_inv q ents -> geom_ok (fq_geometry q) = true.
+Proof.
+  intros Hinv. pose proof (chain_inv_wf _ _ _ Hinv) as (Hb0 & Hb8 & Hlen & Hl8 & Hcapok).
+  unfold geom_ok, fq_geometry. destruct Hcapok as [E0|(j & Hj & Ej & Hia)].
+  - rewrite E0 in *. replace (hv_len (fq_cur q)) with 0 by lia. reflexivity.
+  - apply orb_true_iff. right.
+    pose proof (pow2_pos j Hj).
+    repeat (apply andb_true_iff; split); try (apply Z.leb_le; lia); try (apply Z.eqb_eq; assumption).
+    + apply Z.ltb_lt. lia.
+    + rewrite Ej, Z.log2_pow2 by assumption. apply Z.eqb_refl.
 Qed.
